@@ -21,7 +21,7 @@ WORKERS = 4
 
 HEADER = ('From Coq Require Import List Bool Arith String.\n'
           'From PT Require Import Util.Finite Sem.Values Sem.MSyntax Sem.LimitBest Sem.Access '
-          'Sem.PyModel Sem.Classical Sem.ModelRun Sem.Export.\n'
+          'Sem.PyModel Sem.Classical Sem.ClassicalFix Sem.ModelRun Sem.Export.\n'
           'Import ListNotations.\n')
 
 ACCESS = {'Access': 'AKAny', 'SerialAccess': 'AKSerial', 'ReflexiveAccess': 'AKRefl',
